@@ -27,6 +27,9 @@ structure DState where
   hist : List (List (Bytes × Bytes)) := []
   cuts : Spec.Cuts := []
   store : Store.State := {}
+  /-- cache keys whose lifetime ran out during a `st.sleep` INSIDE a transaction: cleaning is disabled then, so
+  the entries are still served; they are dropped as soon as cleaning is enabled again (commit / rollback) -/
+  stExpired : List Store.Key := []
   /-- lagging reader instances: the epoch record each one has pinned in its cache -/
   readers : List (Nat × Azks) := []
 
@@ -299,7 +302,7 @@ def stepL1 (st : DState) (toks : List String) : Option (DState × String) :=
       | some vs => some (st, "ok " ++ " ".intercalate (vs.map fun v => s!"({v.epoch},{v.version},{hexOfBytes v.value})"))
       | none => some (st, "rej")
   | ["st.reset", mode] =>
-    some ({ st with store := { hasCache := mode != "nocache" } }, "ok")
+    some ({ st with store := { hasCache := mode != "nocache" }, stExpired := [] }, "ok")
   | ["st.active"] => some (st, toString st.store.active)
   | ["st.dbdump"] => some (st, StIO.showMany (st.store.db.map StIO.showRec))
   | "azks.insert" :: mode :: rest => do
@@ -479,8 +482,18 @@ def stepL1 (st : DState) (toks : List String) : Option (DState × String) :=
   | toks =>
     match StIO.parseOp? st.store toks with
     | some op =>
+      let expired :=
+        if toks == ["st.sleep"] && !st.store.canClean then (st.stExpired ++ StIO.allCacheKeys st.store).eraseDups
+        else st.stExpired
+      let logKeys := st.store.log.map (·.key)
       let (s', obs) := Store.step Store.fixed st.store op
-      some ({ st with store := s' }, StIO.showObs obs)
+      if s'.canClean && !expired.isEmpty then
+        -- the records a successful commit has just put into the cache are fresh
+        let fresh := match obs with | .count _ => logKeys | _ => []
+        let (s'', _) := Store.step Store.fixed s' (.evict (expired.filter fun k => !fresh.contains k))
+        some ({ st with store := s'', stExpired := [] }, StIO.showObs obs)
+      else
+        some ({ st with store := s', stExpired := expired }, StIO.showObs obs)
     | none => none
 
 def parseLabels (toks : List String) : Option (List NodeLabel) :=
